@@ -27,7 +27,7 @@
      RefusalMissing OutcomeMismatch FinalStatus HistoryOrdered
      ConnectionLeak IntermediateNotReleased
    Named deviations of the unchanged tree (own clause each; validation continues past them)
-     EntityHeadersOnBodylessHop   a redirected request without content carries Content-Type
+     EntityHeadersOnBodylessHop   a redirected GET/HEAD/DELETE without content carries Content-Type
      FinalInOwnHistory            3xx without Location: the returned response is listed in its own history
    HarnessOrder = the driver itself mis-sequenced events (machinery, never a violation). *)
 EXTENDS Redirects, TraceBatch
@@ -79,9 +79,15 @@ ReqClause(q, s0, e) ==
        ELSE IF rq.body = "none" /\ e.clen \notin {"", "0"} THEN "StaleContentLength"
        ELSE ""
 
+\* client_reference.rst (skip_auto_headers): aiohttp generates a default Content-Type for the
+\* methods that expect content (client_reqrep.POST_METHODS) even when no data is passed; a
+\* request without content of any other method carries none when it is the first request of
+\* a call - a redirected one must not differ.
+DefaultCtypeMethods == {"POST", "PUT", "PATCH"}
 ReqDev(s0, e) ==
     LET rq == s0.sent[Len(s0.sent)]
-    IN IF rq.body = "none" /\ e.body = "none" /\ e.ctype # "" THEN "EntityHeadersOnBodylessHop" ELSE ""
+    IN IF rq.body = "none" /\ e.body = "none" /\ e.ctype # "" /\ rq.method \notin DefaultCtypeMethods
+       THEN "EntityHeadersOnBodylessHop" ELSE ""
 
 RefHist(s0) ==
     [i \in 1..Len(s0.history) |->
